@@ -1,6 +1,448 @@
 package lib
 
+import (
+	"encoding/binary"
+	"fmt"
+	"strings"
+
+	"github.com/cuteLittleDevil/go-jt808/protocol/jt808"
+	"github.com/cuteLittleDevil/go-jt808/protocol/model"
+)
+
 // C03Location: totality / locality / history-independence cases for the location family
 // (28-byte block, additional-information TLV, vendor extension items, 0x0704 and 0x0801 carriers).
 // Owned by the builder of C08; called from cmd/C03/main.go.
-func C03Location(c *Ctx) {}
+//
+// For every generated body of every carrier:
+//   - the real Parse + String on an exact-capacity copy under recover()        (op pXXXX, correspondence)
+//   - the same bytes in a larger buffer behind two different poisoned tails: answers must be identical
+//   - the same body on a receiver that already parsed 1-3 other bodies          (op seqXXXX, correspondence)
+//     must give the answer of a fresh receiver
+//
+// and the same three for the five extension handlers under every dialect (ops ext / seqext), plus the
+// handlers embedded in T0x0200 through CustomAdditionContentFunc (op extemb, implementation only).
+// Violations: C03/location-panic-*, C03/location-tail-*, C03/location-history-*, C03/ext-*;
+// the pinned 0x66 over-read is the known finding C03/ext66-overread.
+func C03Location(c *Ctx) {
+	rng := c.Rng
+	quick := c.Quick()
+	tailA := []byte{0, 0, 0, 0, 0, 0, 0, 0, 0, 0, 0, 0, 0, 0, 0, 0, 0, 0, 0, 0, 0, 0, 0, 0, 0, 0, 0, 0, 0, 0, 0, 0, 0, 0, 0, 0, 0, 0, 0, 0, 0, 0, 0, 0, 0, 0, 0, 0}
+	tailB := make([]byte, len(tailA))
+	for i := range tailB {
+		tailB[i] = 0xFF
+	}
+	tailC := make([]byte, len(tailA)) // a tail that looks like more well-formed items / entries
+	for i := 0; i+6 <= len(tailC); i += 6 {
+		copy(tailC[i:], []byte{0x01, 0x04, 0, 0, 0, 9})
+	}
+
+	randBlock := func() []byte {
+		b := make([]byte, 28)
+		rng.Read(b)
+		return b
+	}
+	// a body rich in sticky state: every flag set, many items
+	richBody := func() []byte {
+		b := randBlock()
+		for i := 0; i < 8; i++ {
+			b[i] = 0xFF
+		}
+		b = append(b, 0x01, 4, 0, 0, 0, 7, 0x25, 4, 0xFF, 0xFF, 0xFF, 0xFF, 0x2A, 2, 0xFF, 0xFF, 0x30, 1, 9, 0x31, 1, 8, 0xE1, 3, 1, 2, 3,
+			0x11, 5, 1, 0, 0, 0, 2, 0x12, 6, 1, 0, 0, 0, 3, 1, 0x13, 7, 0, 0, 0, 1, 0, 2, 1)
+		b = append(b, 0x05, 30)
+		for i := 0; i < 30; i++ {
+			b = append(b, byte(i+1))
+		}
+		return b
+	}
+	rich := map[string][][]byte{}
+	{
+		r1, r2 := richBody(), richBody()
+		rich["0200"] = [][]byte{r1, r2, randBlock()}
+		mk704 := func(items ...[]byte) []byte {
+			b := []byte{0, byte(len(items)), 1}
+			for _, it := range items {
+				b = binary.BigEndian.AppendUint16(b, uint16(len(it)))
+				b = append(b, it...)
+			}
+			return b
+		}
+		rich["0704"] = [][]byte{mk704(r1, r2, r1), mk704(r2), mk704(randBlock(), r1)}
+		h := []byte{1, 2, 3, 4, 5, 6, 7, 8}
+		rich["0801"] = [][]byte{append(append(append([]byte{}, h...), r1[:28]...), 1, 2, 3), append(append([]byte{}, h...), r2[:28]...)}
+	}
+	minLen := map[string]int{"0200": 28, "0704": 31, "0801": 36}
+
+	nseq := 0
+	one := func(kind string, body []byte, what string) {
+		req := "p" + kind + " " + Hx(body)
+		ans := c.Do(req, len(body) >= minLen[kind])
+		c.Count("loc-" + kind + "-" + what + ":" + firstTok(ans))
+		if ans == "panic" {
+			c.Violate(Violation{Signature: "C03/location-panic-" + kind, What: "Parse or String panicked on an exact-capacity body",
+				Input: req, Observed: ans, Required: "ok ... or err"})
+		}
+		for _, tail := range [][]byte{tailA, tailB, tailC} {
+			if a2 := LocParse(kind, body, tail); a2 != ans {
+				c.Violate(Violation{Signature: "C03/location-tail-" + kind, What: "the outcome depends on bytes behind the slice",
+					Input: req + " " + Hx(tail), Observed: a2, Required: ans + "   (answer with exact capacity)"})
+			}
+		}
+		// reused receiver: 1-3 earlier bodies (rich ones, sometimes the body itself or a failing one)
+		nseq++
+		if quick && nseq%2 == 0 && len(body) > 60 {
+			return
+		}
+		var prior []string
+		for i := 0; i < 1+rng.Intn(3); i++ {
+			switch rng.Intn(6) {
+			case 0:
+				prior = append(prior, Hx(body))
+			case 1:
+				prior = append(prior, Hx(rich[kind][0][:rng.Intn(len(rich[kind][0]))]))
+			default:
+				prior = append(prior, Hx(rich[kind][rng.Intn(len(rich[kind]))]))
+			}
+		}
+		sreq := "seq" + kind + " " + strings.Join(prior, " ") + " " + Hx(body)
+		if a3 := c.Do(sreq, len(body) >= minLen[kind]); a3 != ans {
+			c.Violate(Violation{Signature: "C03/location-history-" + kind, What: "a reused receiver gives a different result than a fresh one",
+				Input: sreq, Observed: a3, Required: ans + "   (answer of a fresh receiver)"})
+		}
+	}
+
+	// ---- (a) every length with zero / 0xFF / random fill
+	maxLen := 80
+	if !quick {
+		maxLen = 300
+	}
+	for _, kind := range []string{"0200", "0704", "0801"} {
+		for n := 0; n <= maxLen; n++ {
+			for _, fill := range []int{0x00, 0xFF, -1} {
+				b := make([]byte, n)
+				if fill < 0 {
+					rng.Read(b)
+				} else {
+					for i := range b {
+						b[i] = byte(fill)
+					}
+				}
+				one(kind, b, "fill")
+			}
+		}
+	}
+	// ---- (b)(d) TLV: every id x every length 0..40 x {exact, one short, one long}, inside 0x0200 and inside a 0x0704 item
+	step := 1
+	if quick {
+		step = 3 // ids 0..255 in thirds per seed; the standard ids and the extension ids always
+	}
+	always := map[int]bool{0x01: true, 0x02: true, 0x03: true, 0x04: true, 0x05: true, 0x06: true, 0x11: true, 0x12: true, 0x13: true,
+		0x25: true, 0x2A: true, 0x2B: true, 0x30: true, 0x31: true, 0x64: true, 0x65: true, 0x66: true, 0x67: true, 0x70: true, 0xE0: true}
+	off := rng.Intn(step)
+	for id := 0; id < 256; id++ {
+		if !always[id] && id%step != off {
+			continue
+		}
+		for n := 0; n <= 40; n++ {
+			content := make([]byte, n)
+			rng.Read(content)
+			if n > 0 && rng.Intn(3) == 0 {
+				content[0] = 0
+			}
+			for v, body := range [][]byte{
+				append(append(randBlock(), byte(id), byte(n)), content...),                  // exact
+				append(append(randBlock(), byte(id), byte(n+1)), content...),                // one short
+				append(append(append(randBlock(), byte(id), byte(n)), content...), 0x31),    // one long (dangling id)
+				append(append(append(randBlock(), byte(id), byte(n)), content...), 0x30, 1), // next item's content missing
+			} {
+				if !always[id] && v > 0 && n%4 != 0 {
+					continue
+				}
+				one("0200", body, "tlv")
+				if always[id] && v < 2 {
+					it := body
+					b := binary.BigEndian.AppendUint16([]byte{0, 1, 0}, uint16(len(it)))
+					one("0704", append(b, it...), "tlv")
+				}
+			}
+		}
+	}
+	// pairs of items and duplicates over the ids that decode something
+	ids := []byte{0x01, 0x02, 0x05, 0x11, 0x12, 0x13, 0x25, 0x2A, 0x30, 0x31, 0x33}
+	lens := map[byte]int{0x01: 4, 0x02: 2, 0x05: 30, 0x11: 5, 0x12: 6, 0x13: 7, 0x25: 4, 0x2A: 2, 0x30: 1, 0x31: 1, 0x33: 3}
+	for _, a := range ids {
+		for _, b := range ids {
+			ca, cb := make([]byte, lens[a]), make([]byte, lens[b])
+			rng.Read(ca)
+			rng.Read(cb)
+			body := append(append(append(append(randBlock(), a, byte(len(ca))), ca...), b, byte(len(cb))), cb...)
+			one("0200", body, "pair")
+		}
+	}
+	// ---- (b) 0x0704 count / item-length positions with every interesting value
+	item := append([]byte{0, 28}, randBlock()...)
+	for _, cnt := range []int{0, 1, 2, 3, 4, 255, 256, 65535} {
+		for k := 0; k <= 3; k++ {
+			b := []byte{byte(cnt >> 8), byte(cnt), 0}
+			for i := 0; i < k; i++ {
+				b = append(b, item...)
+			}
+			one("0704", b, "count")
+			one("0704", append(b, 0), "count")      // one dangling byte where an item length is expected
+			one("0704", append(b, 0, 0), "count")   // an empty item
+			one("0704", append(b, 0, 5), "count")   // item length beyond the body
+			one("0704", append(b, 255, 255), "count")
+		}
+	}
+	for l := 0; l <= 70; l++ { // every declared item length against a fixed amount of bytes
+		b := append([]byte{0, 1, 0, byte(l >> 8), byte(l)}, richBody()[:60]...)
+		one("0704", b, "itemlen")
+	}
+	// ---- (c) truncations at every position of valid bodies (0x0200 / 0x0704 / 0x0801 Encode output + items)
+	{
+		var t model.T0x0200
+		_ = t.Parse(&jt808.JTMessage{Body: Exact(rich["0200"][0])})
+		enc := t.Encode() // the real Encode: the 28-byte block
+		full := append(append([]byte{}, enc...), rich["0200"][0][28:]...)
+		for n := 0; n <= len(full); n++ {
+			one("0200", full[:n], "trunc")
+		}
+		var t7 model.T0x0704
+		_ = t7.Parse(&jt808.JTMessage{Body: Exact(rich["0704"][2])})
+		enc7 := t7.Encode()
+		for n := 0; n <= len(enc7); n++ {
+			one("0704", enc7[:n], "trunc")
+		}
+		full7 := rich["0704"][0]
+		for n := 0; n <= len(full7); n += 1 + n/64 {
+			one("0704", full7[:n], "trunc")
+		}
+		var t8 model.T0x0801
+		_ = t8.Parse(&jt808.JTMessage{Body: Exact(rich["0801"][0])})
+		enc8 := t8.Encode()
+		for n := 0; n <= len(enc8); n++ {
+			one("0801", enc8[:n], "trunc")
+		}
+	}
+	// ---- (f) random mutations of valid bodies
+	nmut := 1500
+	if !quick {
+		nmut = 200000
+	}
+	for i := 0; i < nmut; i++ {
+		kind := []string{"0200", "0704", "0801"}[rng.Intn(3)]
+		src := rich[kind][rng.Intn(len(rich[kind]))]
+		b := append([]byte{}, src...)
+		for k := 0; k < 1+rng.Intn(3); k++ {
+			switch rng.Intn(4) {
+			case 0:
+				if len(b) > 0 {
+					b[rng.Intn(len(b))] = byte(rng.Intn(256))
+				}
+			case 1:
+				if len(b) > 0 {
+					b = b[:rng.Intn(len(b)+1)]
+				}
+			case 2:
+				if len(b) > 29 {
+					p := 28 + rng.Intn(len(b)-28)
+					b[p] = []byte{0, 1, 2, 4, 5, 6, 7, 30, 0x11, 0x31, 0x30, 255}[rng.Intn(12)]
+				}
+			case 3:
+				b = append(b, byte(rng.Intn(256)))
+			}
+		}
+		one(kind, b, "mutated")
+	}
+	// times that do not survive Time2BCD unchanged (String re-slices the encoding)
+	for _, tb := range [][]byte{{0xAA, 0xAA, 0xAA, 0xAA, 0xAA, 0xAA}, {0xA0, 0, 0, 0, 0, 0}, {0x0A, 0x11, 0x22, 0x33, 0x44, 0x5A},
+		{0xFF, 0xFF, 0xFF, 0xFF, 0xFF, 0xFF}, {0xDA, 0xAD, 0, 0xA, 0xA0, 0xD}} {
+		b := randBlock()
+		copy(b[22:], tb)
+		one("0200", b, "time")
+		one("0801", append(append([]byte{0, 0, 0, 1, 0, 0, 0, 1}, b...), 1), "time")
+		one("0704", append([]byte{0, 1, 0, 0, 28}, b...), "time")
+	}
+
+	c03Ext(c, tailA, tailB)
+}
+
+func firstTok(s string) string {
+	if i := strings.IndexByte(s, ' '); i > 0 {
+		if s[:i] == "err" {
+			return s
+		}
+		return s[:i]
+	}
+	return s
+}
+
+// ExtEmbedded: the README pattern — a T0x0200 whose CustomAdditionContentFunc is the handler's Parse.
+func ExtEmbedded(kind string, dialect int, body, tail []byte) (ans string) {
+	defer func() {
+		if r := recover(); r != nil {
+			ans = "panic"
+		}
+	}()
+	h := NewExt(kind, dialect)
+	var t model.T0x0200
+	t.CustomAdditionContentFunc = h.Parse
+	if err := t.Parse(&jt808.JTMessage{Header: &jt808.Header{}, Body: WithTail(body, tail)}); err != nil {
+		return ProtoErrCode(err)
+	}
+	_ = h.String()
+	return dump0200(&t) + " handler: " + ExtDump(h)
+}
+
+func init() {
+	// extemb <kind> <dialect> <body> <tail>   (implementation only)
+	RegisterOp("extemb", func(a []string) string { return ExtEmbedded(a[0], atoi(a[1]), Unhx(a[2]), Unhx(a[3])) })
+}
+
+func c03Ext(c *Ctx, tailA, tailB []byte) {
+	rng := c.Rng
+	quick := c.Quick()
+	kinds := []struct {
+		name string
+		id   int
+		ok   int // the accepted length (0x66: 40+9k)
+	}{{"64", 0x64, 47}, {"65", 0x65, 47}, {"66", 0x66, 49}, {"67", 0x67, 41}, {"70", 0x70, 47}}
+	dialects := []int{0, 1, 2, 3, 4, 5, 6, 7, 255}
+	is66Class := func(kind string, id int, content []byte) bool {
+		return kind == "66" && id == 0x66 && len(content) > 40 && len(content) == 40+9*int(content[40])
+	}
+	one := func(kind string, d, id int, content []byte, what string) {
+		base := fmt.Sprintf("ext %s %d %d %s", kind, d, id, Hx(content))
+		ans := c.Do(base+" -", true)
+		c.Count("ext-" + kind + "-" + what + ":" + firstTok(ans))
+		known := is66Class(kind, id, content)
+		sig := func(s string) string {
+			if known {
+				return "C03/ext66-overread"
+			}
+			return s
+		}
+		if ans == "panic" {
+			c.Violate(Violation{Signature: sig("C03/ext-panic-" + kind), What: "extension handler panicked on an exact-capacity content",
+				Input: base + " -", Observed: ans, Required: "ok ... or no"})
+		}
+		var prev string
+		for i, tail := range [][]byte{tailA[:1], tailB[:1], tailA, tailB} {
+			a2 := c.Do(base+" "+Hx(tail), true)
+			if a2 == "panic" && ans != "panic" {
+				c.Violate(Violation{Signature: sig("C03/ext-panic-" + kind), What: "extension handler panicked", Input: base + " " + Hx(tail),
+					Observed: a2, Required: ans})
+			} else if a2 != ans && !(known && ans == "panic") {
+				c.Violate(Violation{Signature: sig("C03/ext-tail-" + kind), What: "the outcome depends on bytes behind the content slice",
+					Input: base + " " + Hx(tail), Observed: a2, Required: ans + "   (answer with exact capacity)"})
+			}
+			if known && i > 0 && prev != "" && a2 != prev && i != 2 {
+				// 0x66 behind different tails: the decoded battery level differs (locality broken, known finding)
+				c.Violate(Violation{Signature: "C03/ext66-overread", What: "0x66 reads its last entry one byte beyond the content",
+					Input: base + " " + Hx(tail), Observed: a2, Required: prev + "   (answer behind another tail)"})
+			}
+			prev = a2
+		}
+		// reused handler
+		if !known {
+			other := make([]byte, kinds[rng.Intn(len(kinds))].ok)
+			for i := range other {
+				other[i] = 0xFF
+			}
+			same := make([]byte, len(content))
+			for i := range same {
+				same[i] = 0xFF
+			}
+			sreq := fmt.Sprintf("seqext %s %d %d %s %d %s %d %s", kind, d, id, Hx(same), id, Hx(other), id, Hx(content))
+			if a3 := c.Do(sreq, true); a3 != ans {
+				c.Violate(Violation{Signature: "C03/ext-history-" + kind, What: "a reused handler gives a different result than a fresh one",
+					Input: sreq, Observed: a3, Required: ans + "   (answer of a fresh handler)"})
+			}
+		}
+	}
+	fillers := []int{0x00, 0xFF, -1}
+	for _, k := range kinds {
+		for _, d := range dialects {
+			maxLen := 62
+			if !quick {
+				maxLen = 120
+			}
+			for n := 0; n <= maxLen; n++ {
+				if quick && d > 5 && n%3 != 0 && n != k.ok {
+					continue
+				}
+				for _, f := range fillers {
+					if quick && f == 0xFF && n != k.ok && n%2 == 0 {
+						continue
+					}
+					content := make([]byte, n)
+					if f < 0 {
+						rng.Read(content)
+					} else {
+						for i := range content {
+							content[i] = byte(f)
+						}
+					}
+					one(k.name, d, k.id, content, "len")
+					if n == k.ok || n == k.ok+1 || n == k.ok-1 {
+						one(k.name, d, k.id^1, content, "other-id")
+					}
+				}
+			}
+		}
+	}
+	// 0x66: every count value against lengths 40+9k and 41+9k, k = 0..4
+	for _, d := range []int{1, 2, 4} {
+		for k := 0; k <= 4; k++ {
+			for _, n := range []int{40 + 9*k, 41 + 9*k} {
+				for cnt := 0; cnt < 256; cnt++ {
+					if quick && cnt > 8 && cnt%16 != 0 && cnt != 255 {
+						continue
+					}
+					content := make([]byte, n)
+					rng.Read(content)
+					if n > 40 {
+						content[40] = byte(cnt)
+					}
+					one("66", d, 0x66, content, "count")
+				}
+			}
+		}
+	}
+	// embedded in T0x0200 through CustomAdditionContentFunc: exact capacity and poisoned tails, item last or followed by another
+	block := make([]byte, 28)
+	for _, k := range kinds {
+		for _, d := range []int{1, 2, 3, 4, 5} {
+			for n := k.ok - 2; n <= k.ok+11; n++ {
+				for _, follow := range [][]byte{nil, {0x30, 1, 7}} {
+					content := make([]byte, n)
+					rng.Read(content)
+					if k.name == "66" && n > 40 {
+						content[40] = byte((n - 40) / 9)
+					}
+					body := append(append(append([]byte{}, block...), byte(k.id), byte(n)), content...)
+					body = append(body, follow...)
+					known := is66Class(k.name, k.id, content)
+					req := fmt.Sprintf("extemb %s %d %s", k.name, d, Hx(body))
+					ans := RunOp(req + " -")
+					c.Eval(req, true)
+					c.Count("extemb-" + k.name + ":" + firstTok(ans))
+					sig := "C03/extemb-" + k.name
+					if known {
+						sig = "C03/ext66-overread"
+					}
+					if ans == "panic" {
+						c.Violate(Violation{Signature: sig, What: "T0x0200.Parse with an extension handler panicked", Input: req + " -",
+							Observed: ans, Required: "ok ... or err"})
+					}
+					for _, tail := range [][]byte{tailA, tailB} {
+						if a2 := RunOp(req + " " + Hx(tail)); a2 != ans {
+							c.Violate(Violation{Signature: sig, What: "the outcome depends on bytes behind the body", Input: req + " " + Hx(tail),
+								Observed: a2, Required: ans + "   (answer with exact capacity)"})
+						}
+					}
+				}
+			}
+		}
+	}
+}
